@@ -71,6 +71,9 @@ func (d *Directory) Mangle(callback MangleFunc) (*Mangler, error) {
 			}
 		}
 	}
+	if pos != d.DirLoc {
+		return nil, fmt.Errorf("zip directory is at offset %d but %d was expected: archives with embedded non-archive data cannot be rewritten", d.DirLoc, pos)
+	}
 	return m, nil
 }
 
